@@ -23,7 +23,10 @@ RULE = ('V: convert_to_base_types on the value family (None, bool, int, NaN/+-in
         'of the live view, length<=8) on real Measurement objects inside a real PhaseState, transform none/wrapping, the '
         'base-type view read through PhaseState.as_base_types(); R: real runs of C02-style programs with checkpoints, '
         'branches, subtests, diagnoses, logs and attachments: every record list represented, JSON strict + round trip, '
-        'attachments byte-for-byte, caches untouched by the conversion; non-trivial = distinct case')
+        'attachments byte-for-byte, caches untouched by the conversion; X: a watcher thread renders the live view while '
+        'the phase thread assigns measurements, under the cooperative scheduler with every source line of '
+        'PhaseState.as_base_types / Measurement.as_base_types / PhaseState._notify a scheduling point (random and PCT '
+        'schedules), live view compared with a from-scratch rendering once both are quiet; non-trivial = distinct case')
 ASSUMPTIONS = ['json and base64 modules are trusted (text-level statements are differential only)',
                'coordinates are ints/strings (Python equality 1 == True == 1.0 is not modelled)']
 TRUSTED = ['harness/props/c10.py (Python value <-> token canonicaliser)', 'lean/OpenHTF/Driver/C10.lean']
@@ -271,14 +274,118 @@ def _record_case(case):
     facts['json_produced'] = '0'
   facts['base_types_after'] = '1' if base_only(r.as_base_types()) else '0'
   out2 = io.BytesIO()
-  json_factory.OutputToJSON(out2, inline_attachments=False)(r)
-  d2 = json.loads(out2.getvalue().decode('utf-8'))
-  facts['second_callback_not_inlined'] = '1' if 'data' not in d2['phases'][0]['attachments']['blob.bin'] else '0'
+  try:
+    json_factory.OutputToJSON(out2, inline_attachments=False)(r)
+    d2 = json.loads(out2.getvalue().decode('utf-8'))
+    facts['second_callback_not_inlined'] = '1' if 'data' not in d2['phases'][0]['attachments']['blob.bin'] else '0'
+  except Exception:  # pylint: disable=broad-except
+    facts['json_produced_without_inlining'] = '0'
   return facts
+
+
+def _concurrent_view_case(case):
+  """a watcher thread renders the live view (as the station API does) while the phase thread assigns measurements;
+  under the cooperative scheduler with every source line of the rendering functions a scheduling point. Once both are
+  quiet the live view must equal a from-scratch rendering of the in-memory measurements."""
+  import threading
+  from harness import common, sched, sched_exec
+  sched_exec.install(False)
+  import openhtf as htf
+  from openhtf.core import test_state, measurements
+  from openhtf.util import data
+  facts = []
+  box = {}
+  names = ['a', 'b', 'c'][:case.get('nmeas', 2)]
+
+  def ms():
+    out = [htf.Measurement(n) for n in names]
+    out.append(htf.Measurement('d').with_dimensions('x'))
+    return out
+
+  @htf.measures(*ms())
+  def phase(test):
+    ps = test_state_ref()['ps']
+    stop = box['stop']
+    for op in case['ops']:
+      if op[0] == 'S':
+        setattr(test.measurements, names[op[1] % len(names)], op[2])
+      else:
+        test.measurements.d[op[1]] = op[2]
+    stop.set()
+    box['watcher_done'].wait(30)
+    # quiescent: nobody renders, nobody assigns
+    view = ps.as_base_types()['measurements']
+    for n, mo in ps.measurements.items():
+      v = view[n]
+      if v.get('outcome') != mo.outcome.name:
+        facts.append('live_outcome_%s=0' % n)
+      if mo.measured_value.is_value_set:
+        want = data.convert_to_base_types(mo.measured_value.value if not mo.dimensions else mo.measured_value.basetype_value())
+        want = json.loads(json.dumps(want))
+        got = json.loads(json.dumps(v.get('measured_value', '<missing>')))
+        if got != want:
+          facts.append('live_value_%s=0' % n)
+
+  def test_state_ref():
+    return box
+  test = htf.Test(phase)
+  test.configure(name='c10x')
+  orig_ctx = test_state.TestState.running_phase_context
+
+  def watcher():
+    s = sched.SCHED
+    while not box['stop'].is_set():
+      st = test.state
+      ps = getattr(st, 'running_phase_state', None) if st is not None else None
+      if ps is not None:
+        box['ps'] = ps
+        copy.deepcopy(ps.as_base_types())
+        box['renders'] = box.get('renders', 0) + 1
+        s.block(lambda: False, 0.001, 'watch-pause')
+      else:
+        s.block(lambda: False, 0.001, 'watch-idle')      # a timed wait, not a spin: priority schedules must not starve
+    box['watcher_done'].set()
+
+  def body(s):
+    box['stop'] = sched.CoEvent()
+    box['watcher_done'] = sched.CoEvent()
+    # the phase needs its own PhaseState: hand it over through the context manager
+    import contextlib
+
+    @contextlib.contextmanager
+    def ctx(self_, phase_desc):
+      with orig_ctx(self_, phase_desc) as ps:
+        box['ps'] = ps
+        yield ps
+    test_state.TestState.running_phase_context = ctx
+    w = threading.Thread(target=watcher, name='watcher')
+    w._cosched_name = 'watcher'
+    w.start()
+    try:
+      test.execute()
+    finally:
+      box['stop'].set()
+      test_state.TestState.running_phase_context = orig_ctx
+    w.join()
+    return True
+  codes = sched.codes_of(test_state.PhaseState.as_base_types, measurements.Measurement.as_base_types,
+                         test_state.PhaseState._notify)
+  rng = common.Rng('c10x/%s' % case['rseed'])
+  choose = sched.pct_chooser(rng, case.get('pct', 3), case.get('horizon', 400)) if case.get('pct') else \
+      sched.random_chooser(rng, case.get('switch', 0.3))
+  rbox, s = sched.run(choose, body, max_steps=300000, trace_lines=codes,
+                      early_timers=(common.Rng('c10xe/%s' % case['rseed']), 0.7, 0.05))
+  if s.deadlock or 'sched_error' in rbox:
+    facts.append('deadlock_free=0')
+  facts.append('live_view_checked=1')
+  facts.append('renders_during_phase=%d:%d' % (box.get('renders', 0), box.get('renders', 0)))
+  return {'facts': dict(f.split('=') for f in facts)}
 
 
 def run_real(case):
   k = case['kind']
+  if k == 'X':
+    return _concurrent_view_case(case)
   if k == 'V':
     from openhtf.util import data
     return {'out': data.convert_to_base_types(_pyval(case['v']), json_safe=case['js'])}
@@ -310,6 +417,8 @@ def encode(case, obs):
 
 
 def classify(case, obs):
+  if case['kind'] == 'X':
+    return 'X/concurrent-render'
   return case['kind'] + ('/dim' if case.get('dim') else '')
 
 
@@ -357,6 +466,16 @@ def gen_cases(rng, tier):
     for allow_nan in (False, True):
       cases.append({'kind': 'R', 'value': _spec(v), 'allow_nan': allow_nan, 'fail_sub': bool(len(cases) % 2),
                     'size': 1 + len(cases) % 3})
+  for i in range(120 if tier == 'quick' else 3000):
+    r = rng.derive('x%d' % i)
+    ops = []
+    for _ in range(r.choice([2, 3, 4])):
+      if r.random() < 0.75:
+        ops.append(['S', r.randrange(3), r.choice([1, 5, 7])])
+      else:
+        ops.append(['D', r.randrange(2), r.choice([2, 3])])
+    cases.append({'kind': 'X', 'nmeas': r.choice([2, 3]), 'ops': ops, 'rseed': r.getrandbits(32),
+                  'pct': r.choice([0, 2, 3, 3]), 'horizon': r.choice([200, 500]), 'switch': r.choice([0.2, 0.5])})
   return cases
 
 
